@@ -2,7 +2,9 @@
 
 use crate::il::*;
 use crate::translator::x86::mode::Mode;
-use crate::translator::{unhandled_intrinsic, BlockTranslationResult, Options};
+use crate::translator::{
+    ensure_block_in_address_space, unhandled_intrinsic, BlockTranslationResult, Options,
+};
 use crate::Error;
 use falcon_capstone::{capstone, capstone_sys};
 
@@ -28,6 +30,8 @@ pub(crate) fn translate_block(
     address: u64,
     options: &Options,
 ) -> Result<BlockTranslationResult, Error> {
+    ensure_block_in_address_space(address, bytes.len())?;
+
     let cs = match mode {
         Mode::X86 => capstone::Capstone::new(capstone::cs_arch::CS_ARCH_X86, capstone::CS_MODE_32),
         Mode::Amd64 => {
